@@ -55,7 +55,7 @@ pub fn run(rep: &mut Report, tier: &str, seed: u64) {
     let pool = pool();
     for pi in 0..n_programs {
         let mut r = root.fork(pi as u64);
-        let opts = Opts { fragment: false, fault_pct: if pi % 3 == 2 { 100 } else { 0 }, max_stanzas: 6, allow_print: true, universal: r.chance(1, 2), probe: false, scoped_heavy: false, keywordish_names: false, static_fault: 0 };
+        let opts = Opts { fragment: false, fault_pct: if pi % 3 == 2 { 100 } else { 0 }, max_stanzas: 6, allow_print: true, universal: r.chance(1, 2), probe: false, scoped_heavy: pi % 4 == 1, keywordish_names: false, static_fault: 0 };
         let loaded = match gen_loaded(rep, &mut r, &pool, &opts) {
             Some(l) => l,
             None => continue,
